@@ -310,6 +310,7 @@ pub fn build(cfg: &Cfg) -> Result<Live, String> {
             c.verif_set_clock(&clock);
             Ok(Live::Unsync(Box::new(c), clock))
         }
+        "concs" | "inject" if !phase::AVAILABLE => Err("phase-hooks-unavailable".to_string()),
         "sync" | "concs" | "inject" => {
             let inject = cfg.kind == "inject";
             let mut b = SCache::<VKey, VVal>::builder();
@@ -565,7 +566,7 @@ fn injected_step() {
         if !holds(t) {
             if kind == 0 {
                 let key = VKey::new(k);
-                match c.verif_invalidate_map(&key) {
+                match phase::invalidate_map(&c, &key) {
                     Some(p) => {
                         HELD.with(|h| h.borrow_mut().push((t, Held::Write(p))));
                         lines.push(format!("pinv {} {} -> held", t, k));
@@ -573,7 +574,7 @@ fn injected_step() {
                     None => lines.push(format!("pinv {} {} -> none", t, k)),
                 }
             } else {
-                let p = c.verif_insert_map(VKey::new(k), VVal::new(v));
+                let p = phase::insert_map(&c, VKey::new(k), VVal::new(v));
                 HELD.with(|h| h.borrow_mut().push((t, Held::Write(p))));
                 lines.push(format!("pins {} {} {} -> ok", t, k, v));
             }
@@ -586,7 +587,7 @@ fn injected_step() {
                     h.remove(i).1
                 });
                 if let Held::Write(p) = held {
-                    match c.verif_enqueue_write(p) {
+                    match phase::enqueue_write(&c, p) {
                         Ok(()) => {
                             lines.push(format!("penq {} -> ok", t));
                             c.sync();
@@ -638,10 +639,56 @@ pub fn clear_inject() {
     INJ.with(|i| *i.borrow_mut() = None);
 }
 
+/// The phase-split hooks of the crate. They are guarded by a second cfg
+/// (`mini_moka_verif_phase`) because they call private functions whose signatures a change to
+/// the crate may alter: when they no longer build, the harness is rebuilt without them and the
+/// components that need them (`concs`, `inject`) are skipped, the others still run.
+#[cfg(mini_moka_verif_phase)]
+mod phase {
+    use super::*;
+    pub const AVAILABLE: bool = true;
+    pub type PW = mini_moka::verif::PendingWrite<VKey, VVal>;
+    pub type PR = mini_moka::verif::PendingRead<VKey, VVal>;
+    type C<S> = SCache<VKey, VVal, S>;
+    pub fn insert_map<S: std::hash::BuildHasher + Clone + Send + Sync + 'static>(c: &C<S>, k: VKey, v: VVal) -> PW {
+        c.verif_insert_map(k, v)
+    }
+    pub fn invalidate_map<S: std::hash::BuildHasher + Clone + Send + Sync + 'static>(c: &C<S>, k: &VKey) -> Option<PW> {
+        c.verif_invalidate_map(k)
+    }
+    pub fn get_map<S: std::hash::BuildHasher + Clone + Send + Sync + 'static>(c: &C<S>, k: &VKey) -> (Option<VVal>, PR) {
+        c.verif_get_map(k)
+    }
+    pub fn enqueue_write<S: std::hash::BuildHasher + Clone + Send + Sync + 'static>(c: &C<S>, p: PW) -> Result<(), PW> {
+        c.verif_enqueue_write(p)
+    }
+    pub fn enqueue_read<S: std::hash::BuildHasher + Clone + Send + Sync + 'static>(c: &C<S>, p: PR) {
+        c.verif_enqueue_read(p)
+    }
+    pub fn maint<S: std::hash::BuildHasher + Clone + Send + Sync + 'static>(c: &C<S>) {
+        c.verif_maint()
+    }
+}
+
+#[cfg(not(mini_moka_verif_phase))]
+mod phase {
+    use super::*;
+    pub const AVAILABLE: bool = false;
+    pub struct PW;
+    pub struct PR;
+    type C<S> = SCache<VKey, VVal, S>;
+    pub fn insert_map<S>(_c: &C<S>, _k: VKey, _v: VVal) -> PW { unreachable!() }
+    pub fn invalidate_map<S>(_c: &C<S>, _k: &VKey) -> Option<PW> { unreachable!() }
+    pub fn get_map<S>(_c: &C<S>, _k: &VKey) -> (Option<VVal>, PR) { unreachable!() }
+    pub fn enqueue_write<S>(_c: &C<S>, _p: PW) -> Result<(), PW> { unreachable!() }
+    pub fn enqueue_read<S>(_c: &C<S>, _p: PR) { unreachable!() }
+    pub fn maint<S>(_c: &C<S>) { unreachable!() }
+}
+
 /// What a logical thread holds between its map step and its enqueue (phase-split API).
 enum Held {
-    Write(mini_moka::verif::PendingWrite<VKey, VVal>),
-    Read(mini_moka::verif::PendingRead<VKey, VVal>),
+    Write(phase::PW),
+    Read(phase::PR),
 }
 
 thread_local! {
@@ -660,6 +707,9 @@ fn exec_sync<S: std::hash::BuildHasher + Clone + Send + Sync + 'static>(c: &SCac
     let ws: Vec<&str> = op.split_whitespace().collect();
     let num = |i: usize| -> Option<u64> { ws.get(i).and_then(|s| s.parse().ok()) };
     // phase-split operations of logical threads (kind=concs)
+    if !phase::AVAILABLE && matches!(ws.first().copied(), Some("pins" | "pinv" | "pget" | "penq" | "maint")) {
+        return "bad-op".into();
+    }
     match ws.first().copied() {
         Some("pins") if ws.len() == 4 => {
             return match (num(1), num(2), num(3)) {
@@ -667,7 +717,7 @@ fn exec_sync<S: std::hash::BuildHasher + Clone + Send + Sync + 'static>(c: &SCac
                     let (key, val) = (VKey::new(k), VVal::new(v));
                     // (no injection here: DashMap may re-hash stored keys under the shard lock while
                     // it inserts, so the hash callback is not a lock-free point during a map step)
-                    let p = c.verif_insert_map(key, val);
+                    let p = phase::insert_map(c, key, val);
                     HELD.with(|h| h.borrow_mut().push((t, Held::Write(p))));
                     "ok".into()
                 }
@@ -678,7 +728,7 @@ fn exec_sync<S: std::hash::BuildHasher + Clone + Send + Sync + 'static>(c: &SCac
             return match (num(1), num(2)) {
                 (Some(t), Some(k)) if !holds(t) => {
                     let key = VKey::new(k);
-                    if let Some(p) = c.verif_invalidate_map(&key) {
+                    if let Some(p) = phase::invalidate_map(&c, &key) {
                         HELD.with(|h| h.borrow_mut().push((t, Held::Write(p))));
                         "held".into()
                     } else {
@@ -692,7 +742,7 @@ fn exec_sync<S: std::hash::BuildHasher + Clone + Send + Sync + 'static>(c: &SCac
             return match (num(1), num(2)) {
                 (Some(t), Some(k)) if !holds(t) => {
                     let key = VKey::new(k);
-                    let (r, p) = c.verif_get_map(&key);
+                    let (r, p) = phase::get_map(c, &key);
                     HELD.with(|h| h.borrow_mut().push((t, Held::Read(p))));
                     match r {
                         Some(v) => format!("some {}", v.0),
@@ -712,10 +762,10 @@ fn exec_sync<S: std::hash::BuildHasher + Clone + Send + Sync + 'static>(c: &SCac
                     });
                     match held {
                         Held::Read(p) => {
-                            c.verif_enqueue_read(p);
+                            phase::enqueue_read(c, p);
                             "ok".into()
                         }
-                        Held::Write(p) => match c.verif_enqueue_write(p) {
+                        Held::Write(p) => match phase::enqueue_write(c, p) {
                             Ok(()) => "ok".into(),
                             Err(p) => {
                                 // the channel is full: the thread keeps holding its operation
@@ -730,7 +780,7 @@ fn exec_sync<S: std::hash::BuildHasher + Clone + Send + Sync + 'static>(c: &SCac
         }
         Some("maint") if ws.len() == 1 => {
             set_in_maint(true);
-            c.verif_maint();
+            phase::maint(c);
             set_in_maint(false);
             return "ok".into();
         }
